@@ -129,3 +129,36 @@ func VfH_C09_font_tuple() {
 	t.calculateScalar(coords, shared, sharedIdx)
 	vfReach("end")
 }
+
+// H-C09-font-composite: outlines, extents and advances of a composite glyph whose component record is
+// arbitrary (flags, component glyph index, arguments): a 'glyf' table of two glyphs (0 = composite with one
+// component, 1 = an empty glyph) read by the real ParseGlyf, then the glyf accessors of a face.
+func VfH_C09_font_composite() {
+	raw := []byte{0xFF, 0xFF, 0, 0, 0, 0, 0, 10, 0, 10, // numberOfContours -1, bounding box
+		vfU8("flagsHi") & 0x01, vfU8("flagsLo") & 0x07, // component flags (no MORE_COMPONENTS, no scale, no instructions)
+		vfU8("gidHi"), vfU8("gidLo"), vfU8("arg1"), vfU8("arg2")}
+	if raw[11]&0x01 != 0 { // ARG_1_AND_2_ARE_WORDS
+		raw = append(raw, vfU8("arg3"), vfU8("arg4"))
+	}
+	n := uint32(len(raw))
+	glyf, err := tables.ParseGlyf(raw, []uint32{0, n, n})
+	if err != nil {
+		vfReach("end")
+		return
+	}
+	ft := &Font{glyf: glyf, nGlyphs: 2}
+	if vfBool("variable") {
+		ft.fvar = fvar{{Tag: ot.MustNewTag("wght"), Minimum: 100, Default: 400, Maximum: 900}}
+	}
+	face := NewFace(ft)
+	if len(ft.fvar) != 0 {
+		face.SetCoords([]tables.Coord{tables.Coord(vfI16("coord"))})
+	}
+	gid := GID(vfChoice("glyph", 3))
+	face.GlyphData(gid)
+	face.GlyphExtents(gid)
+	face.HorizontalAdvance(gid)
+	face.VerticalAdvance(gid)
+	vfCover("parsed", true)
+	vfReach("end")
+}
